@@ -50,7 +50,57 @@ def runIdx : State → List Ev → Nat → Nat → State × Option Nat
     -- the implementation reports its `seen`-th task start: it must be the model's `seen`-th too
     if s.started[seen]? == some (k, w) then runIdx s es (i + 1) (seen + 1) else (s, some i)
 
+/-- whole-server runs: the end of a connection's task is not visible from outside; it is supplied
+    before the worker's next locked block. -/
+def runIdxAnon : State → List Ev → Nat → State × Option Nat
+  | s, [], _ => (s, none)
+  | s, .lbl (.look w) :: es, i =>
+    let s0 := match phaseOf s w with
+      | .running _ => (step s (.finish w)).getD s
+      | _ => s
+    (match step s0 (.look w) with
+     | some s' => runIdxAnon s' es (i + 1)
+     | none => (s, some i))
+  | s, .lbl l :: es, i =>
+    (match step s l with
+     | some s' => runIdxAnon s' es (i + 1)
+     | none => (s, some i))
+  | s, .started _ _ :: es, i => runIdxAnon s es (i + 1)
+
+def runAnon (kv : KV) : String :=
+  let strs := listS ',' (get kv "labels")
+  let evs := strs.filterMap evOf
+  let parsedAll := evs.length == strs.length
+  let (s, rej) := runIdxAnon init evs 0
+  let accepted := parsedAll && rej.isNone
+  let started := listS ',' (get kv "started")
+  let liveEnd := toNatD (get kv "live_end")
+  let aborted := get kv "aborted" == "1"
+  let quiet := get kv "quiet" == "1"
+  -- model vs implementation: how many workers are alive at the end
+  let aLive := accepted && count s isLive == liveEnd
+  -- C08: every connection that sent a complete request had it delivered, whatever the others did
+  let c08 := started.all (· == "ok") && !aborted && quiet
+  -- C20: after the long silence at the end of every scenario no surplus worker is left
+  -- (workers still serving an open connection are busy, not surplus: the accepted trace tells which)
+  let busy := count s (fun p => match p with | .running _ => true | _ => false)
+  let c20 := decide (liveEnd ≤ minThreads + busy) && !aborted && quiet
+  let tags := [
+    "srvpool:1", "burst:" ++ get kv "burst",
+    "newthread:" ++ b01 (strs.any (fun x => x.endsWith ":n")),
+    "queued:" ++ b01 (strs.any (fun x => (x.splitOn ":q").length > 1)),
+    "timeoutwake:" ++ b01 (strs.any (fun x => x.startsWith "T")),
+    "ptimer:" ++ get kv "ptimer" ]
+  let diff := if !parsedAll then "unparsed-label"
+    else match rej with
+      | some i => "label-rejected:" ++ toString i ++ ":" ++ strs.getD i "?"
+      | none => if !aLive then "live:model=" ++ toString (count s isLive) else "-"
+  "res id=" ++ get kv "id" ++ " agree=" ++ b01 aLive ++ " skip=0 aC08=" ++ b01 aLive ++ " aC20=" ++ b01 aLive
+    ++ " C08=" ++ b01 c08 ++ " C20=" ++ b01 c20
+    ++ " tags=" ++ ",".intercalate tags ++ " diff=" ++ diff
+
 def run (kv : KV) : String :=
+  if get kv "anon" == "1" then runAnon kv else
   let strs := listS ',' (get kv "labels")
   let evs := strs.filterMap evOf
   let parsedAll := evs.length == strs.length
